@@ -36,12 +36,16 @@ func round6(c *Ctx) {
 			r9ListsOfBytesAndTaggedFields(c)
 			r9EmptyObjectsAcrossCarriers(c)
 			r10OneQueryAfterAnother(c)
+			r12KeysWhoseOtherCaseHasAnotherLength(c)
+			r12WideUnsignedAcrossCarriers(c)
 		}
 	case "C05":
 		r6NumbersKeptAsText(c)
 		r6HugeUnsigned(c)
 		r8SmallFloats(c)
 		r9ListsThatWereNeverAllocated(c)
+	case "C06":
+		r12WideUnsignedAcrossCarriers(c)
 	case "C04":
 		r8ObjectsOfNumbers(c)
 		r9ListsOfBytesAndTaggedFields(c)
@@ -60,6 +64,7 @@ func round6(c *Ctx) {
 		r6PaddedZeroNumerals(c)
 		r8ObjectsKeyedByAny(c)
 	case "C02", "C03":
+		r12PrimitivesThatPrintAlike(c)
 		r6NullElementsUnderFilters(c)
 		r8RunsOfFilters(c)
 		r8ObjectsOfObjectsUnderFilters(c)
@@ -793,5 +798,79 @@ func r11ListsOfMixedObjects(c *Ctx) {
 			c.sameAcross("$.xs.Select(\"$."+key+"\").Sum()", names, ds, "round11/lists-of-mixed-objects")
 		}
 		c.sameAcross("$.xs[@.Qty.Greater(1)].Price", names, ds, "round11/lists-of-mixed-objects")
+	}
+}
+
+// lists that hold a truth value next to the text that spells it (true / "true", false / "false"): a predicate that tells them apart
+// keeps exactly the ones it holds for - two elements that PRINT alike are two elements
+func r12PrimitivesThatPrintAlike(c *Ctx) {
+	xs := func(ei int) *TV {
+		return tvSlice(ei, tvBool(true), tvStr("true"), tvBool(false), tvStr("false"), tvBool(true), tvStr("x"), tvStr("true"))
+	}
+	docs := []*TV{tvMap("str", [][2]any{kv("xs", xs(1)), kv("want", tvBool(true)), kv("text", tvStr("true")), kv("no", tvBool(false))}),
+		tvStruct([][3]any{{"Xs", 1, xs(1)}, {"Want", 1, tvBool(true)}, {"Text", 1, tvStr("true")}, {"No", 1, tvBool(false)}})}
+	for _, d := range docs {
+		for _, q := range []string{"$.xs[@.Equal(true)]", `$.xs[@.Equal("true")]`, "$.xs[@.Equal($.want)]", "$.xs[@.Equal($.text)]", "$.xs[@.NotEqual(false)]", `$.xs[@.NotEqual("false")]`,
+			`$.xs[@.AnyOf("false",true)]`, "$.xs[@.Equal(false)].Count()", `$.xs[OR,@.Equal("true"),@.Equal(false)]`, `$.xs[@.Equal(true)][@.Equal(true)]`, "$.xs[@.Equal($.no)]", `$.xs[@.AnyOf($.text,$.no)].Count()`} {
+			c.Do(Case{Q: q, D: d, Cls: "round12/primitives-that-print-alike", InDomain: true})
+		}
+	}
+}
+
+// keys whose other letter case is LONGER or SHORTER in UTF-8 (ß / ẞ, the Kelvin sign / k, the long s / s, Å / the Angstrom sign): matched
+// without regard to letter case in every carrier, struct fields included
+func r12KeysWhoseOtherCaseHasAnotherLength(c *Ctx) {
+	type pair struct{ field, asked string }
+	pairs := []pair{{"Straße", "STRAẞE"}, {"Temp_k", "temp_\u212a"}, {"Masse", "ma\u017f\u017fe"}, {"Ångström", "\u212bngström"}, {"Kelvin", "\u212aelvin"}, {"Ohm_ω", "ohm_\u2126"}}
+	var mk, sk [][2]any
+	var sf [][3]any
+	for i, p := range pairs {
+		mk = append(mk, kv(p.field, tvF64(float64(i+1))))
+		sf = append(sf, [3]any{p.field, 1, tvF64(float64(i + 1))})
+		sk = append(sk, kv(p.field, tvF64(float64(i+1))))
+	}
+	row := func(asStruct bool, v float64) *TV {
+		if asStruct {
+			return tvStruct([][3]any{{"Straße", 1, tvF64(v)}, {"Kelvin", 1, tvF64(v + 1)}})
+		}
+		return tvMap("str", [][2]any{kv("Straße", tvF64(v)), kv("Kelvin", tvF64(v+1))})
+	}
+	docs := []*TV{
+		tvMap("str", [][2]any{kv("o", tvMap("str", mk)), kv("rows", tvSlice(1, row(false, 1), row(false, 5)))}),
+		tvMap("str", [][2]any{kv("o", tvStruct(sf)), kv("rows", tvSlice(0, row(true, 1), row(true, 5)))}),
+		tvMap("str", [][2]any{kv("o", tvPtr(tvStruct(sf))), kv("rows", tvSlice(1, tvPtr(row(true, 1)), row(true, 5)))}),
+	}
+	names := []string{"maps", "structs", "pointers-to-structs"}
+	for _, p := range pairs {
+		for _, k := range []string{p.field, p.asked} {
+			c.sameAcross("$.o."+k, names, docs, "round12/keys-whose-other-case-has-another-length")
+			c.sameAcross("$.o."+k+".Add(1)", names, docs, "round12/keys-whose-other-case-has-another-length")
+			c.sameAcross("$.o."+k+"?.IsNull()", names, docs, "round12/keys-whose-other-case-has-another-length")
+		}
+	}
+	for _, k := range []string{"Straße", "STRAẞE", "\u212aelvin", "kelvin"} {
+		c.sameAcross("$.rows."+k, names, docs, "round12/keys-whose-other-case-has-another-length")
+		c.sameAcross("$.rows."+k+".Sum()", names, docs, "round12/keys-whose-other-case-has-another-length")
+		c.sameAcross("$.rows[@."+k+".Greater(2)].Count()", names, docs, "round12/keys-whose-other-case-has-another-length")
+	}
+}
+
+// whole numbers between 2^63 and 2^64 carried by Go's `uint` (not uint64), by a named type over it, behind a pointer, in a list, next to
+// the same numbers as uint64, decimal and (where exact) float64: the same number in every carrier
+func r12WideUnsignedAcrossCarriers(c *Ctx) {
+	for _, v := range []string{"10000000000000000000", "12000000000000000000", "9223372036854775808", "18446744073709551615"} {
+		named := tvInt("uint", v)
+		named.N = 1
+		carr := []*TV{tvInt("uint64", v), tvInt("uint", v), named, tvPtr(tvInt("uint", v)), tvDec(decimal.RequireFromString(v))}
+		names := []string{"uint64", "uint", "named-uint", "pointer-to-uint", "decimal"}
+		var docs []*TV
+		for _, t := range carr {
+			docs = append(docs, tvMap("str", [][2]any{kv("n", t), kv("xs", tvSlice(1, t, tvF64(1))), kv("five", tvF64(5))}))
+		}
+		docs = append(docs, tvMap("str", [][2]any{kv("n", tvInt("uint", v)), kv("xs", tvSlice(0, tvInt("uint", v), tvInt("uint", "1"))), kv("five", tvF64(5))}))
+		names = append(names, "typed-list-of-uint")
+		for _, q := range []string{"$.n", "$.n.Add(1)", "$.n.Greater($.five)", "$.n.Less(5)", "$.xs.Sum()", "$.xs.Maximum()", "$.xs.First()", "$.n.Equal($.xs.First())", "$.n.Divide(2)", "$.n.IsEmpty()", "$.five.Less($.n)"} {
+			c.sameAcross(q, names, docs, "round12/wide-unsigned-across-carriers")
+		}
 	}
 }
